@@ -143,16 +143,8 @@ func derivesFrom(v ssa.Value, target func(ssa.Value) bool) bool {
 			if x.Op == token.MUL {
 				switch y := x.X.(type) {
 				case *ssa.Alloc:
-					if y.Referrers() != nil {
-						for _, ref := range *y.Referrers() {
-							if st, ok := ref.(*ssa.Store); ok && st.Addr == y {
-								if walk(st.Val, d+1) {
-									return true
-								}
-							}
-						}
-					}
-					return false
+					// stores to the cell itself and, for local structs, to its fields
+					return walk(y, d+1)
 				case *ssa.FieldAddr:
 					return walk(y.X, d+1) || walk(y, d+1)
 				case *ssa.IndexAddr:
